@@ -671,6 +671,33 @@ persistent: false,
 
 // ---------------------------------------------------------------------------------- C17
 
+/// Inserts, after a line feed (never a trail byte in these encodings, so a character
+/// boundary), a comment line holding a sequence that `enc_name`'s decoder accepts but its
+/// encoder cannot produce. Positions late in the text are preferred: output written in pieces
+/// has then already begun when the character is met.
+fn inject_decode_only(rng: &mut Rng, enc_name: &str, bytes: &[u8]) -> Option<Vec<u8>> {
+    let seq: &[&[u8]] = match enc_name {
+        "Big5" => &[&[0x87, 0x40], &[0x87, 0x41], &[0x88, 0x62]],
+        "EUC-JP" => &[&[0x8F, 0xB0, 0xA1], &[0x8F, 0xB0, 0xA2]],
+        _ => return None,
+    };
+    let mut at: Vec<usize> = bytes.iter().enumerate().filter(|(_, b)| **b == b'\n').map(|(i, _)| i + 1).collect();
+    at.push(0);
+    at.sort_unstable();
+    let pos = if rng.chance(1, 2) {
+        let from = at.len() - (at.len() / 4).max(1);
+        at[from + rng.below((at.len() - from) as u64) as usize]
+    } else {
+        at[rng.below(at.len() as u64) as usize]
+    };
+    let mut out = bytes[..pos].to_vec();
+    out.extend_from_slice(b"//   ");
+    out.extend_from_slice(seq[rng.below(seq.len() as u64) as usize]);
+    out.extend_from_slice(b"\n");
+    out.extend_from_slice(&bytes[pos..]);
+    Some(out)
+}
+
 pub fn generate_c17(seed: u64, run: u64, corpus: &Corpus, tier: Tier, stats: &mut Stats) -> Generated {
     let p = params("C17", tier);
     let mut rng = Rng::derive(seed, &[prop_tag("C17"), run]);
@@ -700,6 +727,16 @@ pub fn generate_c17(seed: u64, run: u64, corpus: &Corpus, tier: Tier, stats: &mu
         } else if rng.chance(1, 12) {
             bytes = inject_bom_bytes(&mut rng, bom_len, &bytes);
             kind = "bom_bytes_injected";
+        } else if !enc.has_bom && rng.chance(1, 2) {
+            // byte sequences the decoder accepts and the encoder cannot produce (Big5: the
+            // HKSCS extension; EUC-JP: JIS X 0212): the formatted result is not representable,
+            // which must be an error that leaves the file as it was - however deep in the
+            // text the character sits
+            if let Some(b) = inject_decode_only(&mut rng, enc.enc.name(), &bytes) {
+                bytes = b;
+                kind = "decode_only_sequence";
+                stats.probe("c17_decode_only_sequence_generated");
+            }
         }
         let probe_case = base_case("C17", seed, run, &opts, Mode::StdinStdout, vec![SimFile::new(&path, bytes.clone())]);
         let ra = child::run_reference(&probe_case.stdin_reference(0));
